@@ -379,8 +379,8 @@ func engineC14(c *vctx) error {
 		}
 		total, _ := mountRun(-1)
 		step := 1
-		if !c.thorough() && total > 24 {
-			step = total / 24
+		if !c.thorough() && total > 12 {
+			step = total / 12
 		}
 		for at := 0; at <= total+6; at += step {
 			tick()
